@@ -125,18 +125,18 @@ func endpoints() []Endpoint {
 	pm := url.Values{"match[]": {`m1{app="a1"}`}}
 	eps := []Endpoint{
 		// ---- LogQL
-		{Name: "loki.query_range.log", API: "logql", Signal: 1, Unit: 1, Family: "lm", Call: lokiRange(sel, "")},
-		{Name: "loki.query_range.log_filter", API: "logql", Signal: 1, Unit: 1, Family: "lm", Call: lokiRange(sel+` |~ "li.e"`, ""), Thorough: true},
-		{Name: "loki.query_range.rate_1m_shortcut", API: "logql", Signal: 1, Metric: true, Unit: 1, Bucket: time.Minute, Family: "lm", Call: lokiRange(`rate(`+sel+`[1m])`, "60")},
-		{Name: "loki.query_range.count_7s", API: "logql", Signal: 1, Metric: true, Unit: 1, Bucket: 7 * time.Second, Family: "lm", Call: lokiRange(`count_over_time(`+sel+`[7s])`, "7")},
-		{Name: "loki.query_range.sum_by_filter_1m", API: "logql", Signal: 1, Metric: true, Unit: 1, Bucket: time.Minute, Family: "lm", Call: lokiRange(`sum by (pos) (count_over_time(`+sel+` |= "line" [1m]))`, "60")},
-		{Name: "loki.query_range.bytes_rate_30s", API: "logql", Signal: 1, Metric: true, Unit: 1, Bucket: 30 * time.Second, Family: "lm", Call: lokiRange(`bytes_rate(`+sel+`[30s])`, "30"), Thorough: true},
-		{Name: "loki.query.instant_log", API: "logql", Signal: 1, Unit: 1, Lookback: 5 * time.Minute, Family: "lm", Instant: true, Call: lokiInstant(sel)},
-		{Name: "loki.query.instant_count_1m", API: "logql", Signal: 1, Metric: true, Unit: 1, Bucket: time.Minute, Lookback: 5 * time.Minute, Family: "lm", Instant: true, Call: lokiInstant(`count_over_time(` + sel + `[1m])`)},
-		{Name: "loki.labels", API: "logql", Signal: 1, Unit: 1, Family: "lm", Call: getNs("/loki/api/v1/labels", nil)},
-		{Name: "loki.label_values", API: "logql", Signal: 1, Unit: 1, Family: "lm", Call: getNs("/loki/api/v1/label/pos/values", nil)},
-		{Name: "loki.label_values_match", API: "logql", Signal: 1, Unit: 1, Family: "lm", Call: getNs("/loki/api/v1/label/pos/values", m)},
-		{Name: "loki.series", API: "logql", Signal: 1, Unit: 1, Family: "lm", Call: getNs("/loki/api/v1/series", m)},
+		{Name: "loki.query_range.log", API: "logql", Signal: 1, Unit: 1024, Family: "lm", Call: lokiRange(sel, "")},
+		{Name: "loki.query_range.log_filter", API: "logql", Signal: 1, Unit: 1024, Family: "lm", Call: lokiRange(sel+` |~ "li.e"`, ""), Thorough: true},
+		{Name: "loki.query_range.rate_1m_shortcut", API: "logql", Signal: 1, Metric: true, Unit: 1024, Bucket: time.Minute, Family: "lm", Call: lokiRange(`rate(`+sel+`[1m])`, "60")},
+		{Name: "loki.query_range.count_7s", API: "logql", Signal: 1, Metric: true, Unit: 1024, Bucket: 7 * time.Second, Family: "lm", Call: lokiRange(`count_over_time(`+sel+`[7s])`, "7")},
+		{Name: "loki.query_range.sum_by_filter_1m", API: "logql", Signal: 1, Metric: true, Unit: 1024, Bucket: time.Minute, Family: "lm", Call: lokiRange(`sum by (pos) (count_over_time(`+sel+` |= "line" [1m]))`, "60")},
+		{Name: "loki.query_range.bytes_rate_30s", API: "logql", Signal: 1, Metric: true, Unit: 1024, Bucket: 30 * time.Second, Family: "lm", Call: lokiRange(`bytes_rate(`+sel+`[30s])`, "30"), Thorough: true},
+		{Name: "loki.query.instant_log", API: "logql", Signal: 1, Unit: 1024, Lookback: 5 * time.Minute, Family: "lm", Instant: true, Call: lokiInstant(sel)},
+		{Name: "loki.query.instant_count_1m", API: "logql", Signal: 1, Metric: true, Unit: 1024, Bucket: time.Minute, Lookback: 5 * time.Minute, Family: "lm", Instant: true, Call: lokiInstant(`count_over_time(` + sel + `[1m])`)},
+		{Name: "loki.labels", API: "logql", Signal: 1, Unit: 1024, Family: "lm", Call: getNs("/loki/api/v1/labels", nil)},
+		{Name: "loki.label_values", API: "logql", Signal: 1, Unit: 1024, Family: "lm", Call: getNs("/loki/api/v1/label/pos/values", nil)},
+		{Name: "loki.label_values_match", API: "logql", Signal: 1, Unit: 1024, Family: "lm", Call: getNs("/loki/api/v1/label/pos/values", m)},
+		{Name: "loki.series", API: "logql", Signal: 1, Unit: 1024, Family: "lm", Call: getNs("/loki/api/v1/series", m)},
 		// ---- Prometheus
 		{Name: "prom.series", API: "prom", Signal: 2, Unit: time.Second, UpIncl: true, Family: "lm", Call: getSec("/api/v1/series", pm, true)},
 		{Name: "prom.labels", API: "prom", Signal: 2, Unit: time.Second, UpIncl: true, Family: "lm", Call: getSec("/api/v1/labels", nil, true)},
@@ -221,9 +221,6 @@ func endpoints() []Endpoint {
 		Endpoint{Name: "prof.SelectMergeProfile", API: "prof", Unit: time.Millisecond, Family: "pf", UpIncl: true, Call: profPost(prof.QuerierService_SelectMergeProfile_FullMethodName, func(w Win) map[string]any {
 			return map[string]any{"profile_typeID": profType, "label_selector": lsel}
 		})},
-		Endpoint{Name: "prof.AnalyzeQuery", API: "prof", Unit: time.Millisecond, Family: "pf", UpIncl: true, Call: profPost(prof.QuerierService_AnalyzeQuery_FullMethodName, func(w Win) map[string]any {
-			return map[string]any{"query": profType + lsel}
-		}), Thorough: true},
 	)
 	return eps
 }
